@@ -325,6 +325,45 @@ func genC12(o *hx.Out, tier string) {
 		}
 		o.Add("serial open-during-close", verdict, "expect", "ok", fmt.Sprintf("serial open-during-close rep=%d", rep))
 	}
+	// ---- Close() while one channel's transport is stuck and its queue has overflowed ----
+	for rep := 0; rep < reps; rep++ {
+		runtime.GOMAXPROCS([]int{1, 2, 16}[rep%3])
+		pipes := []*scn.Pipe{scn.NewPipe("stuck"), scn.NewPipe("fine")}
+		node := newNode(pipes, func(c *gomavlib.NodeConf) { c.Dialect = d })
+		col := scn.NewCollector(node, 0, rep%2 == 1)
+		if rep%2 == 0 {
+			col.Wait(func() bool { return col.Count() >= 2 })
+		} else {
+			time.Sleep(5 * time.Millisecond)
+		}
+		pipes[0].BlockWrites()
+		subDone := make(chan struct{})
+		go func() {
+			defer close(subDone)
+			for i := 0; i < 100+rep; i++ {
+				node.WriteMessageAll(serialMsg(i)) //nolint:errcheck
+			}
+		}()
+		verdict := ""
+		select {
+		case <-subDone:
+		case <-time.After(scn.Timeout):
+			scn.NoteExpired()
+			verdict = "WRITE-CALLS-BLOCKED-BY-A-STUCK-CHANNEL | "
+		}
+		verdict += closeReport(node, col, pipes, func() bool {
+			select {
+			case <-subDone:
+				return true
+			case <-time.After(3 * time.Second):
+				return false
+			}
+		})
+		if verdict != "ok" && strings.HasSuffix(verdict, "| ok") {
+			verdict = strings.TrimSuffix(verdict, " | ok")
+		}
+		o.Add("custom close with a stuck, overflowed channel", verdict, "expect", "ok", fmt.Sprintf("stuck-overflow rep=%d", rep))
+	}
 	// ---- network endpoints ----
 	base := 24000 + int(hx.Seed()%100)*20
 	netReps := 2
